@@ -198,7 +198,7 @@ fn hstream<T: Hash>(t: &T) -> String {
 }
 
 fn opt<N: Dump>(o: Option<&N>) -> String {
-    o.map_or("-".to_string(), |n| n.dump().replace(' ', ","))
+    o.map_or("-".to_string(), |n| n.dump().replace(' ', ";"))
 }
 
 macro_rules! lookups {
@@ -278,14 +278,20 @@ pub fn run_get(f: &[&str]) -> String {
             let d = load!(MarkedYaml);
             format!(
                 "{} keys=-",
-                lookups!(&d.data, &probe, idx, |p: &str| MarkedYaml::scalar_from_string(p.to_string()))
+                lookups!(&d.data, &probe, idx, |p: &str| MarkedYaml {
+                    span: saphyr_parser::Span::default(),
+                    data: YamlData::Value(Scalar::String(p.to_string().into())),
+                })
             )
         }
         "mo" => {
             let d = load!(MarkedYamlOwned);
             format!(
                 "{} keys=-",
-                lookups!(&d.data, &probe, idx, |p: &str| MarkedYamlOwned::scalar_from_string(p.to_string()))
+                lookups!(&d.data, &probe, idx, |p: &str| MarkedYamlOwned {
+                    span: saphyr_parser::Span::default(),
+                    data: YamlDataOwned::Value(ScalarOwned::String(p.to_string())),
+                })
             )
         }
         _ => "bad-kind".into(),
